@@ -4,7 +4,7 @@ import math
 
 from .util import MODEL_NAMES, KIND
 
-REGIMES = ["typical", "wide", "mismatch", "tiny_sigma", "huge_sigma", "corners", "identical", "equal_size"]
+REGIMES = ["typical", "wide", "mismatch", "tiny_sigma", "huge_sigma", "corners", "identical", "equal_size", "round_numbers"]
 GAMMA_NAMES = ["default", "default", "default", "one", "inv_k", "three", "dep", "dep"]
 
 
@@ -86,6 +86,26 @@ def gen_teams(rng, beta, kmin=2, kmax=8, pmax=8, regime=None):
         n = rng.choice([1, 1, 2, 3])
         proto = [list(_player(rng, "typical", beta)) for _ in range(n)]
         teams = [[list(p) for p in proto] for _ in range(k)]
+    elif regime == "round_numbers":
+        # the values people type and databases store: exact integers and simple fractions of the unit, zero, the defaults,
+        # the same value for several players - where a fast path keyed on an exact value (sigma == 1, mu == 0, a default)
+        # or an exact equality between players would be taken
+        mus = [0.0, 0, 1.0, -1.0, 2.0, 5.0, 6.0, 10.0, -6.0, 0.5, 3.0, 4.0, 12.0, 6 * 1.0]
+        sgs = [1.0, 2.0, 0.5, 0.25, 1, 2, 4.0, 0.125, 3.0, 8.0, 0.1, 1e-3]
+        unit = beta * 6.0 / 25.0  # the skill unit: beta is 25/6 units
+        for i in range(k):
+            n = rng.choice([1, 1, 2, 3, rng.randint(1, pmax)])
+            t = []
+            for j in range(n):
+                if rng.random() < 0.25:
+                    t.append([25.0 * unit, 25.0 / 3.0 * unit])  # exactly the model's default rating
+                else:
+                    m_, s_ = rng.choice(mus), rng.choice(sgs)
+                    if unit == 1.0:
+                        t.append([m_ * 25.0 / 6.0 if rng.random() < 0.3 else m_, s_])  # keeps ints int at the default unit
+                    else:
+                        t.append([m_ * beta, s_ * beta])
+            teams.append(t)
     elif regime == "equal_size":
         n = rng.choice([1, 1, 2, 3, rng.randint(1, pmax)])
         sub = rng.choice(["typical", "wide", "mismatch"])
